@@ -127,7 +127,7 @@ type target struct {
 	Derive   string // derive package (default: the typeclass' own)
 	// generic targets
 	TParams []string // names of the type parameters
-	Phantom []bool   // type parameter does not occur in any field
+	Phantom []bool   // type parameter occurs in NO field type (not even as a type argument of a self reference)
 	Insts   []instn
 	Opt     string   // lawlib.Opt literal
 	Deps    []string // generated instances of the same package this one refers to
